@@ -23,10 +23,11 @@ FROM_COLOR_HASH = 0     # F4: Style.from_color hashes (color, bgcolor, None, Non
 WITHOUT_COLOR_HASH = 0  # F5: Style.without_color copies the old hash
 UPDATE_LINK_HASH = 0    # F6: Style.update_link copies the old hash
 UPDATE_LINK_DEF = 0     # F26: Style.update_link copies the cached _style_definition
-FLAGS = "".join(str(int(bool(x))) for x in (RGB_VALUEERROR, ADD_HASH, FROM_COLOR_HASH, WITHOUT_COLOR_HASH, UPDATE_LINK_HASH, UPDATE_LINK_DEF))
-# development aid only (comparing against another checkout, VERIF_REPO=<worktree>): VERIF_C06_FLAGS=100000 overrides the constants above
+EMPTY_LINK = 1          # F30: Style(link="") / update_link("") store "" (falsy, yet != None for ==): NULL_STYLE + Style(link="") != Style(link="")
+FLAGS = "".join(str(int(bool(x))) for x in (RGB_VALUEERROR, ADD_HASH, FROM_COLOR_HASH, WITHOUT_COLOR_HASH, UPDATE_LINK_HASH, UPDATE_LINK_DEF, EMPTY_LINK))
+# development aid only (comparing against another checkout, VERIF_REPO=<worktree>): VERIF_C06_FLAGS=0000000 overrides the constants above
 FLAGS = os.environ.get("VERIF_C06_FLAGS") or FLAGS
-assert len(FLAGS) == 6 and set(FLAGS) <= {"0", "1"}
+assert len(FLAGS) == 7 and set(FLAGS) <= {"0", "1"}
 
 # The documented spellings (docs/source/style.rst + the Style docstring): word -> attribute it names.
 SPELLINGS = {
@@ -97,7 +98,38 @@ def color_strings(rng, names, quick):
             elif s:
                 s[min(pos, len(s) - 1)] = rng.choice(alpha)
         out.append("".join(s))
-    out += ["réd", "ＲＥＤ", "blacK", "rgb(１,２,３)", "red ", " red"]  # outside the modelled domain -> unmodelled
+    # all code points: characters whose lower() is ASCII (KELVIN SIGN -> k, I WITH DOT -> i + U+0307), non-ASCII
+    # white space (NEL, NBSP, IDEOGRAPHIC SPACE ...), non-ASCII decimal digits (\d and int() accept them), final sigma
+    uni_ws = ["\x85", "\xa0", "\u1680", "\u2003", "\u2028", "\u202f", "\u205f", "\u3000"]
+    uni_digits = ["\u0660", "\u0663", "\u06f5", "\u0966", "\uff10", "\uff15", "\uff19", "\U0001d7d8", "\u00b2", "\u2460", "\u0661\u0662", "1\u0663", "\uff12\uff15\uff15", "\uff12\uff15\uff16"]
+    out += ["r\u00e9d", "\uff32\uff25\uff24", "blac\u212a", "BLAC\u212a", "\u212a", "rgb(\uff11,\uff12,\uff13)", "red\u00a0", "\u3000red", "\u3000 red\x85", "re\u00a0d", "defa\u0130ult", "\u0130",
+            "w\u0130", "whi\u0167e", "bright_blac\u212a", "\u03a3\u0391\u03a3", "red\u03a3", "rgb(1,2,\u03a3)", "#ff00\uff46f", "color(\uff11)", "color(1\u0663)", "rgb(1\u20282,3,4)", "RGB(\u0661,\u0662,\u0663)"]
+    # characters that str.casefold() / an ASCII-only lower() would treat differently from str.lower()
+    subs = [("s", "\u017f"), ("fl", "\ufb02"), ("fi", "\ufb01"), ("ff", "\ufb00"), ("ss", "\u00df"), ("st", "\ufb06"), ("k", "\u212a"), ("i", "\u0130"), ("a", "\u00c5"), ("e", "\u00c9")]
+    for n in names + ["default"]:
+        for a_, b_ in subs:
+            if a_ in n:
+                out.append(n.replace(a_, b_, 1))
+    for d in uni_digits:
+        out += [f"rgb({d},2,3)", f"rgb(1,{d},3)", f"rgb(1,2,{d})", f"rgb({d}{d}{d},0,0)", f"rgb(25{d},0,0)"]
+    for w_ in uni_ws:
+        out += [f"rgb({w_}1,2,3)", f"rgb(1{w_},2,3)", f"rgb(1,{w_}2{w_},3)", f"rgb(1{w_}2,3,4)", f"{w_}red{w_}", f"r{w_}ed", f"rgb({w_},2,3)", f"rgb(1,2,3){w_}", f"color(1{w_})"]
+        out += [f"rgb(\x1c1,2,{w_}3)", f"rgb(\uff11{w_},2,3)", f"rgb({w_}\u0661,2,3)"]
+    # int()'s digit limit (sys.get_int_max_str_digits(), 4300 by default): one component right at / over it
+    import sys as _sys
+    lim = getattr(_sys, "get_int_max_str_digits", lambda: 0)() or 4300
+    for n in (lim - 1, lim, lim + 1):
+        out += ["rgb(" + "0" * (n - 1) + "7,2,3)", "rgb(1," + "0" * n + ",3)", "rgb(1,2, " + "0" * (n - 2) + "12 )", "rgb(" + "\u0660" * (n - 1) + "7,2,3)"]
+    for _ in range(150 if quick else 4000):
+        s = list(rng.choice(["red", "bright_blue", "default", "#ff8000", "color(42)", "rgb(10,20,30)", "rgb( 1 , 2 , 3 )", "BLACK", "DEFAULT", "Rgb(1,2,3)"]))
+        for _ in range(rng.randint(1, 2)):
+            pos = rng.randint(0, len(s))
+            ch = rng.choice(uni_ws + uni_digits[:8] + ["\u212a", "\u0130", "\u017f", "\u00df", "\u1e9e", "\u03a3", "\u00e9", "\u0131", "\ufb01", "\U0001f600", "\u0345"])
+            if rng.random() < 0.5 and s:
+                s[min(pos, len(s) - 1)] = ch
+            else:
+                s.insert(pos, ch)
+        out.append("".join(s))
     return out
 
 
@@ -150,7 +182,22 @@ def definitions(rng, quick):
                 w = rng.choice(WORDS)
             ws.append(w)
         out.append(join_words(rng, ws))
-    out += ["bold ｒed", "bóld", "bold red", "link héllo"]  # outside the modelled domain
+    # all code points (see color_strings)
+    out += ["bold \uff52ed", "b\u00f3ld", "bold\u00a0red", "bold\u3000red\x85", "link h\u00e9llo", "lin\u212a x", "LIN\u212a x bold", "\u212a", "not \u212a", "bol\u0130d",
+            "on blac\u212a", "ON BLAC\u212a", "blac\u212a", "rgb(\u0661,\u0662,\u0663)", "on rgb(\uff11,\uff12,\uff13)", "none\u3000", "\u2003none", "n\u00a0one", "bold \u03a3", "\u03a3", "link \u03a3",
+            "link \u212a", "not\u2028bold", "\u017ftrike", "\u017f", "U\u016a", "bold\u200bred", "\uff42old", "italic\u1680on\u1680red", "rgb(1,,\u0662)", "rgb(1,\x1c2,\u0663)"]
+    uni = ["\u212a", "\u0130", "\u017f", "\u00a0", "\u3000", "\x85", "\u0663", "\uff11", "\u00e9", "\u03a3", "\u2028"]
+    for _ in range(600 if quick else 20000):
+        ws = [rng.choice(WORDS) for _ in range(rng.randint(1, 4))]
+        k = rng.randrange(len(ws))
+        w = list(ws[k])
+        pos = rng.randint(0, len(w))
+        if rng.random() < 0.5 and w:
+            w[min(pos, len(w) - 1)] = rng.choice(uni)
+        else:
+            w.insert(pos, rng.choice(uni))
+        ws[k] = "".join(w)
+        out.append(join_words(rng, ws) if rng.random() < 0.5 else rng.choice(["\u00a0", "\u3000", " ", "\x85"]).join(ws))
     return out
 
 
@@ -408,14 +455,45 @@ def run(ctx):
     str(NULL)  # NULL_STYLE in its steady state (its definition cache filled), as the model has it
     ctx.assumptions += [
         "hash(): modelled by the tuple that is hashed; equal tuples hash equally (Python guarantee); the harness compares hash equality with key equality",
-        "text outside ASCII is outside the modelled domain (str.lower/split/strip, \\d, \\s, int() are Unicode-aware): answered `unmodelled`; the direct evaluation still runs on it",
+        "str.isspace / \\s, str.isdecimal / \\d / int(), str.lower and the int() digit limit of the running Python are parameters of the model "
+        "(tables translated on every run by harness/gen/str_tables.py); every table entry and every `Lawful` side condition the theorems assume of them "
+        "(agreement with the ASCII rules below 128, lower() idempotent, lower() creates no white space) is validated on all 1,114,112 code points on every run, "
+        "both on the Lean tables (driver request tables_lawful) and on the real str methods",
+        "str.lower() of a string containing GREEK CAPITAL SIGMA is context dependent (final-sigma rule): such requests are answered `unmodelled`; the direct evaluation still runs on them",
         "functools.lru_cache on Color.parse / Style.parse / Style.normalize is transparent (routes bypass it for Style.parse so that every object is fresh; the cached entry points are exercised by style_parse / normalize cases)",
         "NULL_STYLE is modelled in its steady state (_style_definition already 'none')",
         "_link_id (random) and _ansi are not modelled",
-        "a link is None or a non-empty string: Style(link='') is modelled faithfully (it is `_null`, str() omits it, + ignores it, yet == tells it from None) "
-        "but the identity / copy / route-pair laws are evaluated only on styles whose link is not the empty string",
+        "Style(link='') (F30) is modelled faithfully behind the flag EMPTY_LINK; the text round trip is stated for links that are None or one non-empty word (Style.wf)",
     ]
     names = list(ANSI_COLOR_NAMES)
+
+    # ---- 0. the interpreter's character tables: every entry, and the side conditions the theorems assume
+    import sys as _sys
+
+    n_ws = n_dec = n_low = 0
+    py_bad = None
+    for cp in range(0x110000):
+        if 0xD800 <= cp <= 0xDFFF:
+            continue
+        c = chr(cp)
+        sp, low = c.isspace(), c.lower()
+        d = int(c) if c.isdecimal() else None
+        n_ws += sp
+        n_dec += d is not None
+        if cp != 0x3A3:
+            n_low += low != c
+            if sp or d is not None or low != c or cp % 997 == 0 or cp < 256:
+                ctx.case("str_table", [cp], f"{int(sp)} {'-' if d is None else d} {enc_str(low)}", shape="ws" if sp else "dec" if d is not None else "low" if low != c else "plain")
+            # Lawful, on the real str: lower() idempotent, creates no white space; ASCII rules below 128
+            ok = low.lower() == low and (sp or not any(x.isspace() for x in low))
+            if cp < 128:
+                ok = ok and sp == (9 <= cp <= 13 or 28 <= cp <= 32) and low == (chr(cp + 32) if 65 <= cp <= 90 else c) and d == (cp - 48 if 48 <= cp <= 57 else None)
+            if not ok and py_bad is None:
+                py_bad = cp
+    lim = getattr(_sys, "get_int_max_str_digits", lambda: 0)()
+    ctx.case("str_table_counts", [""], f"{n_ws} {n_dec} {n_low} {lim}")
+    ctx.case("tables_lawful", [0, 0x110000], "ok" if py_bad is None else f"python-str-not-lawful:{py_bad}")
+    ctx.flush()
 
     # ---- 1. Color.parse
     def real_color_parse(s):
@@ -634,6 +712,7 @@ def run(ctx):
         return None
 
     styles = [s for _, s in built]
+    empties = [Style(color="red", bgcolor="blue").without_color, Style().update_link(None), Style.from_color(Color.parse("red")).without_color.copy()]
     empty = Style()
     n_tri = 15000 if quick else 400000
     for i in range(n_tri):
@@ -644,11 +723,15 @@ def run(ctx):
         lhs, rhs = (a + b) + c, a + (b + c)
         ctx.check(lhs == rhs, "Style.__add__:assoc", (repr(a), repr(b), repr(c)), f"(a+b)+c = {lhs!r} but a+(b+c) = {rhs!r}")
         ctx.check(bool(lhs) == bool(rhs), "Style.__add__:assoc-bool", (repr(a), repr(b), repr(c)), "truthiness of (a+b)+c and a+(b+c) differs")
-        if i % 4 == 0 and a.link == "":
-            ctx.note("identity:skipped-empty-link")
-        elif i % 4 == 0:
+        if i % 4 == 0:
             ok = (NULL + a == a) and (a + NULL == a) and (a + None == a) and (empty + a == a) and (a + empty == a) and (a + Style.null() is a)
-            ctx.check(ok, "Style.__add__:identity", repr(a), "the null style is not an identity")
+            # narrow classifier: the only thing wrong is that the operand is the `_null` style with link ""
+            slug = "empty-link-breaks-identity" if (not ok and a.link == "" and not a and a + NULL == a and (NULL + a).link is None) else None
+            ctx.check(ok, "Style(link='')" if slug else "Style.__add__:identity", repr(a) + f" link={a.link!r}", "the null style is not an identity: NULL_STYLE + a != a", finding=slug)
+            if a.link == "":
+                continue  # copy() / without_color of the `_null` style with link "" return NULL_STYLE: the same finding
+            # styles that == NULL_STYLE but are not flagged `_null` (bool() True) are identities all the same
+            ctx.check(all(e == NULL and bool(e) and (a + e == a) and (e + a == a) for e in empties), "Style.__add__:non-null-empty-identity", repr(a), "a style == Style() with _null False is not an identity")
             ctx.check(Style.chain(a, b, c) == lhs and Style.combine([a, b, c]) == lhs and Style.combine(iter([a])) == a, "Style.chain", (repr(a), repr(b), repr(c)), "chain/combine differ from a+b+c")
             ctx.check(a.copy() == a and a.update_link(a.link) == a, "Style.copy", repr(a), "copy / update_link(same link) changed the style")
             wc = a.without_color
@@ -682,6 +765,10 @@ def run(ctx):
             heq = hash(o) == hash(ref)
             ctx.case("route_pair", [FLAGS, L.enc_route(ref_rt), L.enc_route(rt)], f"eq={int(eq)} hasheq={int(heq)}", shape=f"eq{int(eq)}h{int(heq)}", sample=f"{L.show(ref_rt)}  vs  {L.show(rt)}")
             if eq:
+                # + respects ==: equal operands (whatever their _null flags / hashes / caches) give equal sums
+                x = rng.choice(styles)
+                if x.link != "":
+                    ctx.check((ref + x == o + x) and (x + ref == x + o), "Style.__add__:respects-eq", (L.show(ref_rt), L.show(rt), repr(x)), "a == a' but a + x != a' + x or x + a != x + a'")
                 d = {ref: "v"}
                 behaves = heq and d.get(o) == "v" and o in {ref} and len({ref, o}) == 1
                 if not behaves:
